@@ -27,7 +27,8 @@ EXPLANATION = (
     "all eight specifier values to the right handler; R8 every handler sends exactly one response on every normal path "
     "and nothing that can raise follows it; R9 on_request needs one byte outside its try and abort() cannot raise "
     "(integer multiplexer from construction); R10 value precedence callbacks -> data_store -> value -> default -> abort, "
-    "each source selected by presence (is not None / KeyError), never by truthiness."
+    "each source selected by presence (is not None / KeyError), never by truthiness; R11 an accepted download stores an "
+    "immutable copy of exactly the transferred bytes; R12 every segmented transfer starts from a fresh buffer and toggle 0."
 )
 ASSUMPTIONS = [
     "not decided: values for generated object dictionaries and request histories; read/write callbacks are opaque",
@@ -124,6 +125,9 @@ def run(chk):
     _one_response(chk, repo, folder)
     _totality(chk, repo, folder)
     _precedence(chk, repo, folder)
+    from . import shared
+    shared.store_exact(chk, "R11")
+    shared.server_reset(chk, "R12")
 
 
 # ---------------------------------------------------------------------------------------------------- R4
